@@ -147,19 +147,20 @@ func modulePath(gomod string) string {
 }
 
 type fileCtx struct {
-	fset    *token.FileSet
-	file    *ast.File
-	tf      *token.File
-	src     []byte
-	rel     string
-	info    *types.Info
-	pkg     *types.Package
-	edits   []edit
-	seq     int
-	tmp     int
-	skip    map[ast.Node]bool
-	covered map[ast.Node]bool
-	imports map[string]string // import path -> local name
+	fset     *token.FileSet
+	file     *ast.File
+	tf       *token.File
+	src      []byte
+	rel      string
+	info     *types.Info
+	pkg      *types.Package
+	edits    []edit
+	seq      int
+	tmp      int
+	skip     map[ast.Node]bool
+	lockDone map[ast.Node]bool
+	covered  map[ast.Node]bool
+	imports  map[string]string // import path -> local name
 }
 
 func instrumentDir(fset *token.FileSet, imp types.Importer, root, mod, dir string) {
@@ -219,7 +220,7 @@ func instrumentDir(fset *token.FileSet, imp types.Importer, root, mod, dir strin
 		}
 		rel, _ := filepath.Rel(root, names[i])
 		fc := &fileCtx{fset: fset, file: f, tf: fset.File(f.Pos()), src: srcs[f], rel: filepath.ToSlash(rel), info: info, pkg: pkg,
-			skip: map[ast.Node]bool{}, covered: map[ast.Node]bool{}, imports: map[string]string{}}
+			skip: map[ast.Node]bool{}, lockDone: map[ast.Node]bool{}, covered: map[ast.Node]bool{}, imports: map[string]string{}}
 		for _, is := range f.Imports {
 			p := strings.Trim(is.Path.Value, "\"")
 			name := ""
@@ -274,6 +275,11 @@ func (fc *fileCtx) apply() []byte {
 	sort.SliceStable(es, func(i, j int) bool {
 		if es[i].start != es[j].start {
 			return es[i].start < es[j].start
+		}
+		// at one offset, insertions go in front of a replacement that starts there
+		ri, rj := es[i].end > es[i].start, es[j].end > es[j].start
+		if ri != rj {
+			return !ri
 		}
 		return es[i].seq < es[j].seq
 	})
@@ -386,6 +392,24 @@ func (fc *fileCtx) scan(n ast.Node, o *ops) {
 						o.hit(fc, x, nil, false)
 					case (sel.Sel.Name == "Lock" || sel.Sel.Name == "RLock") && (rt == "sync.Mutex" || rt == "sync.RWMutex"):
 						o.hit(fc, x, nil, true)
+						// T5: a blocked sync.Mutex.Lock is not durably blocked for synctest, so a goroutine sleeping on the
+						// fake clock while it holds the mutex would never wake. The acquisition becomes TryLock + delay point.
+						if len(s.Index()) == 1 && pure(sel.X) && !fc.lockDone[x] {
+							fc.lockDone[x] = true
+							recv := fc.text(sel.X)
+							if _, isPtr := fc.info.TypeOf(sel.X).(*types.Pointer); !isPtr {
+								recv = "&" + recv
+							}
+							fn := "Lock"
+							if sel.Sel.Name == "RLock" {
+								fn = "RLock"
+							}
+							fc.replace(x.Pos(), x.End(), fmt.Sprintf("simrt.%s(%q, %s)", fn, fc.site(x), recv))
+							fc.note("lock", fc.site(x))
+						} else if !fc.lockDone[x] {
+							fc.lockDone[x] = true
+							rep.Uninstrumentd = append(rep.Uninstrumentd, "mutex-lock(embedded or complex receiver) "+fc.site(x))
+						}
 					}
 				}
 			}
